@@ -20,7 +20,8 @@ so handing y to the operation instead of x turns every single-operation oracle i
 "the answer does not depend on how the object got its content".  Hidden numbers under the mask may
 differ between x and y (C03 says they do not exist).
 
-modes: 'setitem', 'iadd', 'isub', 'imul', 'itruediv', 'iand', 'ior', 'ixor', and 'derived' (not in-place:
+modes: 'sibling' (x itself, after objects that share its arrays - x * 1, x + 0, x.clone() - were mutated in place
+with operands carrying another mask), 'setitem', 'iadd', 'isub', 'imul', 'itruediv', 'iand', 'ior', 'ixor', and 'derived' (not in-place:
 x0 = x - 2.0 gets a derivative 'h', every cached view of x0 is asked for, y = x0 + 2.0 takes the
 number fast path that clones x0 with its cache; y then carries the extra derivative 'h');
 ``modes_for(x)`` lists the ones that apply to x.  ``reach`` returns x itself when the mode cannot be applied."""
@@ -44,8 +45,8 @@ def warm(y):
 
 def modes_for(x):
     if x.is_bool():
-        return ['setitem', 'iand', 'ior', 'ixor'] if not x.item else ['setitem']
-    m = ['setitem', 'iadd', 'isub']
+        return ['sibling', 'setitem', 'iand', 'ior', 'ixor'] if not x.item else ['sibling', 'setitem']
+    m = ['sibling', 'setitem', 'iadd', 'isub']
     if x.is_float() and x.DERIVS_OK and not x.derivs and type(x).__name__ not in ('Matrix3', 'Quaternion'):
         m.append('derived')
     if x.derivs or type(x).__name__ == 'Matrix3':
@@ -78,6 +79,8 @@ def reach(Pm, x, mode, k=0):
         y = _reach(Pm, x, mode, k)
     except Exception:      # noqa  (the history cannot be built for this object: use the fresh one)
         return x
+    if y is x:
+        return x
     return y if same_content(Pm, x, y, derivs=(mode != 'derived')) else x
 
 
@@ -91,6 +94,29 @@ def _reach(Pm, x, mode, k):
     shape = tuple(x.shape)
     size = int(np.prod(shape)) if shape else 1
     xm = _expanded_mask(x)
+    if mode == 'sibling':
+        # objects that share arrays with x (number fast path, clone, whole-object index) are mutated in place with an
+        # operand that carries another mask: x itself must stay what it was (seeded change C13-E: |= on a shared mask)
+        warm(x)
+        om = np.logical_not(xm) if shape else (not bool(xm))          # masked exactly where x is NOT
+        sibs = [x.clone()]
+        if not x.is_bool():
+            sibs.append(x * 1 if x.is_int() else x * 1.)
+            sibs.append(x + (0 if x.is_int() else 0.))
+        for sb in sibs:
+            if sb is x or sb.readonly:
+                continue
+            if x.is_bool():
+                sb.__ior__(Pm.Boolean(np.zeros(shape, bool) if shape else False, om))
+            else:
+                one = 1 if x.is_int() else 1.
+                sb.__imul__(Pm.Scalar(np.full(shape, one) if shape else one, om))
+            if shape and size:
+                idx = tuple(int(i) for i in np.unravel_index(k % size, shape))
+                sb2 = x.clone()
+                if not sb2.readonly:
+                    sb2[idx] = sb2[idx].remask(not bool(xm[idx]))
+        return x
     if mode == 'derived':
         x0 = x - 2.0
         x0.insert_deriv('h', x0.wod.copy())
